@@ -2,6 +2,7 @@ package engine
 
 import (
 	"fmt"
+	"os"
 	"strings"
 
 	"golang.org/x/tools/go/ssa"
@@ -180,7 +181,10 @@ func registerTrace(p *Program) {
 			return nil, false
 		}
 		e.events = append(e.events, TraceEvent{Kind: "OB", Loc: id})
+		saved, savedCtr := e.onceShare, e.onceCtr
+		e.onceShare, e.onceCtr = "once:"+id, 0
 		r := e.callFnBody(fr, fn, a, nil)
+		e.onceShare, e.onceCtr = saved, savedCtr
 		e.events = append(e.events, TraceEvent{Kind: "OE", Loc: id})
 		return r, true
 	}
@@ -339,8 +343,8 @@ func FindRace(solver *sym.Solver, ta, tb []TraceEvent) (*Race, int, error) {
 			m := map[string]int{}
 			for i, ev := range t {
 				if ev.Kind == kind {
-					if _, ok := m[ev.Loc]; !ok || kind == "OE" {
-						m[ev.Loc] = i
+					if _, ok := m[ev.Loc]; !ok {
+						m[ev.Loc] = i // the first Do on this Once: the one whose body may run
 					}
 				}
 			}
@@ -373,6 +377,16 @@ func FindRace(solver *sym.Solver, ta, tb []TraceEvent) (*Race, int, error) {
 				q := fmt.Sprintf("(push 1)\n(assert (or (= %s (+ %s 1)) (= %s (+ %s 1))))\n(check-sat)\n(pop 1)\n", name(1, j), name(0, i), name(0, i), name(1, j))
 				res := solver.RawCheck(q)
 				if res == sym.Sat {
+					if f := os.Getenv("GOSYM_DUMPSMT"); f != "" {
+						var names []string
+						for k := range fa {
+							names = append(names, fmt.Sprintf("A%d:%s:%s", k, fa[k].Kind, fa[k].Loc))
+						}
+						for k := range fb {
+							names = append(names, fmt.Sprintf("B%d:%s:%s", k, fb[k].Kind, fb[k].Loc))
+						}
+						os.WriteFile(f, []byte(sb.String()+q+"\n; "+strings.Join(names, "\n; ")), 0o644)
+					}
 					solver.RawText("(pop 1)\n")
 					return &Race{A: x, B: y, Schedule: fmt.Sprintf("once winner: thread %d; conflicting accesses made adjacent", winner)}, queries, nil
 				}
